@@ -590,7 +590,7 @@ func (m *model) observe() {
 		if t.acceptedCompletion != nil && t.acceptedStep == w.stepNo {
 			wantRetry := false
 			for _, e := range w.execs {
-				if e.ActionID == t.actionID && t.acceptedKind != "ok" && e.Plan.RetryOnFail && t.acceptedAttempt == "first" {
+				if e.ActionID == t.actionID && t.acceptedKind != "ok" && t.acceptedKind != "bare" && e.Plan.RetryOnFail && t.acceptedAttempt == "first" {
 					wantRetry = true
 				}
 			}
@@ -1355,7 +1355,7 @@ func (m *model) checkLearnerOutcomes() {
 		}
 		want := "Abandoned"
 		if t != nil && t.acceptedCompletion != nil && t.acceptedStep == l.TerminalAt && t.acceptedAttempt == attempt {
-			if t.acceptedKind == "ok" {
+			if t.acceptedKind == "ok" || t.acceptedKind == "bare" {
 				want = "Succeeded"
 			} else {
 				want = "Failed"
